@@ -26,7 +26,9 @@ struct elem {
     int where;                  /* table index or -1 */
     int visits;
     uint64_t pad0;
-    struct cstl_hash_node node;
+    /* two embedded nodes: table 0 links elements through node[0], table 1 through node[1], so that the
+     * `off` member of the table object is observable (swap exchanges it with everything else) */
+    struct cstl_hash_node node[2];
     uint64_t pad1;
 };
 
@@ -40,6 +42,7 @@ static struct cstl_hash T[MAXT];
 static struct elem *LIVE[MAXT][MAXE];
 static int nlive[MAXT];
 static int ready[MAXT];
+static int tcls[MAXT];            /* which embedded node the table object currently uses */
 
 /* ---- model of the requested geometry (C19) ---- */
 struct geo { size_t n; int f; };                /* f: function id, NF = unlogged cstl_hash_mul */
@@ -97,8 +100,8 @@ static struct elem *new_elem(int id)
     memset(e, 0x5e, sizeof(*e));
     e->magic = MAGIC; e->id = id; e->where = -1; e->visits = 0;
     e->key = mode == M_INCR ? (size_t)id * 3 + 1 : (size_t)(id % nkeys);
-    e->node.key = e->key;       /* "key field initialised" for never-inserted objects */
-    e->node.next = NULL;
+    e->node[0].key = e->node[1].key = e->key;   /* "key field initialised" for never-inserted objects */
+    e->node[0].next = e->node[1].next = NULL;
     return e;
 }
 
@@ -109,7 +112,8 @@ static void st_create(int scope)
     ntab = scope & 15; nkeys = (scope >> 4) & 0xff; npool = scope >> 12;
     for (i = 0; i < npool; i++) pool[i] = new_elem(i);
     for (i = 0; i < ntab; i++) {
-        cstl_hash_init(&T[i], offsetof(struct elem, node));
+        tcls[i] = i & 1;
+        cstl_hash_init(&T[i], offsetof(struct elem, node) + tcls[i] * sizeof(struct cstl_hash_node));
         nlive[i] = 0; ready[i] = 0; pending_possible[i] = 0;
         inforce[i].n = 0; inforce[i].f = -1; keyed_since[i] = 0; sweep_len[i] = 0;
     }
@@ -168,7 +172,8 @@ static int find_visit(const void *e, void *p)
     if (x->key != f->key) { f->bad = 2; return 0; }
     if (x->visits != 0) { f->bad = 3; return 0; }
     x->visits = 1;
-    if (f->noffered++ == f->accept_at) { f->accepted = x; return 1; }
+    /* any non-zero value means "accept": positive, negative and extreme values are all used */
+    if (f->noffered++ == f->accept_at) { f->accepted = x; return (int)(x->key % 3) == 0 ? 1 : (int)(x->key % 3) == 1 ? -1 : (-2147483647 - 1); }
     return 0;
 }
 static void clear_visits(int t)
@@ -475,6 +480,7 @@ static int st_apply(uint32_t op, int audit)
         for (i = 0; i < nlive[0]; i++) LIVE[0][i]->where = 0;
         for (i = 0; i < nlive[1]; i++) LIVE[1][i]->where = 1;
         r0 = ready[0]; ready[0] = ready[1]; ready[1] = r0;
+        r0 = tcls[0]; tcls[0] = tcls[1]; tcls[1] = r0;
         g = inforce[0]; inforce[0] = inforce[1]; inforce[1] = g;
         g = oldgeo[0]; oldgeo[0] = oldgeo[1]; oldgeo[1] = g;
         r0 = pending_possible[0]; pending_possible[0] = pending_possible[1]; pending_possible[1] = r0;
@@ -502,7 +508,7 @@ static uint64_t st_sig(void)
         h = vrt_mix(h, x->bucket.count);
         h = vrt_mix(h, x->bucket.capacity);
         h = vrt_mix(h, fid_of(x->bucket.hash) + 2);
-        h = vrt_mix(h, ready[t]);
+        h = vrt_mix(h, ready[t] + 2 * tcls[t]);
         nb = x->bucket.count;
         if (x->bucket.rh.hash != NULL) {
             h = vrt_mix(h, 0xabc);
@@ -582,7 +588,7 @@ static void probe_foreach(int t, int konst, int stop, int erase)
     int r, total = nlive[t];
     const char *ph = phase_of(t);
     char nm[64];
-    if (stop && total > 0) { p.stop_at = (int)(st_sig() % total); p.stop_val = 5 + p.stop_at; }
+    if (stop && total > 0) { p.stop_at = (int)(st_sig() % total); p.stop_val = (p.stop_at & 1) ? -(5 + p.stop_at) : 5 + p.stop_at; }
     clear_visits(t);
     vrt_state(ph);
     if (konst) {
